@@ -100,6 +100,10 @@ Theorem C01_bytes_as_pinned : forall zc i m,
   enc_msg zc (nth i all_schemas s_Login_Request) m = enc_msg zc (nth i pinned_schemas s_Login_Request) m.
 Proof. intros. rewrite (proj1 C01_layout_pinned). reflexivity. Qed.
 
+(* the executable domain check applied by the harness to every generated message implies [canonical] *)
+Theorem C01_canonicalb_sound : forall s m, Slsk.C01.Eval.canonicalb s m = true -> canonical s m.
+Proof. exact canonicalb_sound. Qed.
+
 (* --- non-vacuity --- *)
 Definition ex_login_ok : list value :=
   [VBool true; VStr [104; 105]; VIp [1; 2; 3; 4]; VStr [120]; VBool false; VNone].
